@@ -11,19 +11,13 @@ CONSTANTS
   MaxEarly = 1
   Late = {}
   MaxPub = 1
-  MaxAhead = 1
+  MaxAhead = 0
   Interleave = FALSE
   Faults = FALSE
   RefChoice = FALSE
   RemoteAnytime = FALSE
   Eager = TRUE
-  Track = FALSE
+  Track = TRUE
 VIEW View
-INVARIANT TypeOK
-INVARIANT RemoteClosed
-INVARIANT NeverDropped
-PROPERTY SinceSafe
-PROPERTY OffsetMin
-PROPERTY HeadSafe
-PROPERTY HeadCoversFrontier
+INVARIANT PassBound2
 CHECK_DEADLOCK FALSE
